@@ -962,6 +962,14 @@ func runViews(c *core.Ctx, g *model.GenPkg) {
 						got = inl
 					}
 				}
+				// an explicit `if x.m == nil { panic(…) }` in a method whose expected form dereferences x.m on its way anyhow:
+				// the read-only empty view panics either way (NIL.mut decides that no path returns silently), only the panic
+				// value differs
+				if guard := "if (x." + vf + " == nil) {panic}; "; !in(got, exp[n]) && strings.Count(got, guard) == 1 && len(exp[n]) > 0 && strings.Contains(exp[n][0], "*x."+vf) {
+					if g2 := strings.Replace(got, guard, "", 1); in(g2, exp[n]) {
+						got = g2
+					}
+				}
 				c.Check(in(got, exp[n]), "ACC.view", con, got, fmt.Sprintf("method does: %s ; expected: %s", clip(got, 400), clip(exp[n][0], 400)), pos(c, g, fd.Pos()), src)
 			}
 		}
